@@ -32,8 +32,8 @@ type Workload struct {
 	Isolated          bool // each case in its own OS process (resource shapes)
 	NondetIsViolation bool // a determinism mismatch is the violation itself (C10)
 	NoRecheck         bool
-	ShrinkEvals       int                            // cap on shrink evaluations (0: default)
-	Simplify          func(w *Workload, c any) []any // structural simplification candidates (second shrinking pass)
+	ShrinkEvals       int                                   // cap on shrink evaluations (0: default)
+	Simplify          func(w *Workload, c any) []func() any // lazily built structural simplification candidates (second shrinking pass)
 }
 
 type Property struct {
@@ -460,9 +460,13 @@ func reportViolation(prop *Property, tier string, seed int64, v violation) (stri
 		budget := maxEvals / 2
 		for round := 0; round < 200 && structEvals < budget; round++ {
 			improved := false
-			for _, cand := range w.Simplify(w, c) {
+			for _, mk := range w.Simplify(w, c) {
 				if structEvals >= budget {
 					break
+				}
+				cand := mk()
+				if cand == nil {
+					continue
 				}
 				structEvals++
 				oo := runCaseMaybeIsolated(prop, w, cand, isolated)
